@@ -567,6 +567,80 @@ def c19_none_input(i1: int, n_in: int, lo_none: bool, hi_none: bool, extra_none:
     return r.bindings["x"] is v["a"] and r.bindings["hi"] is v["hi"]
 
 
+# ---------------------------------------------------------------- class 20: a pattern node with MORE outputs than the host node
+P20 = [RR.Pattern(lambda op, x: op.Relu(x, _outputs=2)[0]), RR.Pattern(lambda op, x: op.Neg(op.Relu(x, _outputs=2)[1]))]
+
+
+def c20_output_count(i1: int, i2: int, n_out: int, variant: int, use_second: bool) -> bool:
+    """Relu(x, _outputs=2)[0] as the root, and Neg(Relu(x, _outputs=2)[1]): a host node with fewer outputs than the pattern node
+    is not an instance
+    vp-pre: 0 <= i1 < 5 and 0 <= i2 < 5 and 1 <= n_out <= 3 and 0 <= variant < 2
+    """
+    if variant == 0:
+        m, g, n, v = mk([("", OPS[i1], ["a"], [], n_out)], ["a"], ["v0"])
+        r = P20[0].match(m, g, n[0])
+        expected = OPS[i1] == "Relu" and n_out >= 2
+    else:
+        src = "v0_1" if (use_second and n_out >= 2) else "v0"
+        m, g, n, v = mk([("", OPS[i1], ["a"], [], n_out), ("", OPS[i2], [src], [], 1)], ["a"], ["v1"])
+        r = P20[1].match(m, g, n[1])
+        expected = OPS[i1] == "Relu" and OPS[i2] == "Neg" and n_out >= 2 and src == "v0_1"
+    if bool(r) != expected:
+        return False
+    return (not r) or r.bindings["x"] is v["a"]
+
+
+# ---------------------------------------------------------------- class 21: a numeric pattern constant against a constant that is not a number
+class FakeStrTensor(FakeTensor):
+    pass
+
+
+def c21_const_kinds(i2: int, kind: int, rank: int) -> bool:
+    """x * 2.0 against Mul(a, c) where c is a constant holding a number, a byte string, a str or a bool: a non-numeric constant is not
+    an instance and must not raise
+    vp-pre: 0 <= i2 < 5 and 0 <= kind < 5 and 0 <= rank <= 1
+    """
+    payload = [2.0, b"ab", "2.0", True, 2][kind]
+    m, g, n, v = mk([("", OPS[i2], ["a", "c"], [], 1)], ["a", "c"], ["v0"])
+    g.inputs.pop()
+    v["c"].const_value = FakeTensor(payload, rank)
+    try:
+        r = P3.match(m, g, n[0])
+    except Exception:  # noqa: BLE001 - the matcher must answer, not raise
+        return False
+    expected = OPS[i2] == "Mul" and rank == 0 and kind in (0, 4)
+    return bool(r) == expected
+
+
+# ---------------------------------------------------------------- class 22: commute=True over a backtracking OR without a tag variable
+def _p22(op, x, y):
+    return op.Relu(PI.OrValue([op.Add(x, y), x]))
+
+
+def c22_commute_or(i0: int, i1: int, swapped: bool) -> bool:
+    """Relu(Add(x, y) | x) -- a BACKTRACKING or (the second alternative is a plain variable) without tag variable -- under commute=True:
+    constructing the commuted variants must succeed, and together they match exactly the hosts whose root is Relu
+    vp-pre: 0 <= i0 < 5 and 0 <= i1 < 5
+    """
+    rule = RR.RewriteRule(_p22, lambda op, x, y=None: op.Identity(x))
+    try:
+        variants = rule.commute()
+    except Exception:  # noqa: BLE001 - the library refuses its own documented option
+        return False
+    ins = ["b", "a"] if swapped else ["a", "b"]
+    inner_ins = ins if OPS[i1] in ("Add", "Mul") else ["a"]
+    m, g, n, v = mk([("", OPS[i1], inner_ins, [], 1), ("", OPS[i0], ["v0"], [], 1)], ["a", "b"], ["v1"])
+    got = [r for r in (vr.match(m, g, n[1]) for vr in variants) if r]
+    expected = OPS[i0] == "Relu"
+    if bool(got) != expected:
+        return False
+    if not got:
+        return True
+    if OPS[i1] == "Add":
+        return any(r.bindings["x"] is v[ins[0]] and r.bindings.get("y") is v[ins[1]] for r in got)
+    return all(r.bindings["x"] is v["v0"] for r in got)
+
+
 def _ob(name, timeout=200, bounds="", tt=None, slice_=None):
     if slice_ is not None:
         var, n = slice_
@@ -600,6 +674,9 @@ OBLIGATIONS = [
     _ob("c17_commute_optional", 300, "host leaves symbolic: op-type indices of the inner and the root node, operand order of the root, presence of the optional third input and whether it is None"),
     _ob("c16_or_commit", 300, "host leaves symbolic: two op-type indices and which value (the inner node's output / its input / another input) is the root's second operand"),
     _ob("c15_or_shared_node", 300, "host leaves symbolic: four op-type indices, whether the root's second operand is the node under the first alternative or a sibling, and the sibling's input"),
+    _ob("c20_output_count", 200, "host leaves symbolic: op-type indices, number of outputs of the host node (1..3), which output feeds the consumer"),
+    _ob("c21_const_kinds", 200, "host leaves symbolic: op-type index, kind of the constant payload (float / bytes / str / bool / int), rank 0..1"),
+    _ob("c22_commute_or", 300, "host leaves symbolic: op-type indices of root and inner node, operand order"),
     _ob("c19_none_input", 200, "host leaves symbolic: op-type index, number of inputs 1..4, which of the 2nd/3rd/4th inputs are None, whether the pattern allows other inputs (explicit trailing None beyond a strict pattern excluded: recorded remark)"),
     _ob("c11_one_of_two_outputs", 300, "host leaves symbolic: op-type indices, which of the two outputs the pattern returns, whether the other output / the inner value is used outside or is a graph output"),
 ]
